@@ -549,4 +549,486 @@ Section Proofs.
       + intro Hin. rewrite (HRa e (Hsub e Hin)) in Hea. discriminate.
       + intros p Hpp. eapply le_lt_trans; [exact Hea | apply HRa, Hsub, Hpp].
   Qed.
+
+  (** ** the limited window: what ResolveEdges(after, before, limit) must at least return *)
+  Definition needed (S : list E) (after before : option C) (limit : Z) : list E :=
+    let R := range S before after in
+    if limit >? 0 then firstn (Z.to_nat limit) R else rev (firstn (Z.to_nat (- limit)) (rev R)).
+
+  (** edges of the connection only, none twice, and at least the first [limit] (last [-limit])
+      edges between the cursors — extra edges and any order are fine *)
+  Definition window_ok (S : list E) (after before : option C) (limit : Z) (L : list E) : Prop :=
+    NoDup (map cur L) /\ incl L S /\ incl (needed S after before limit) L.
+
+  Lemma cut_first_shared (R RL : list E) n h1 h2 :
+    ordered R -> ordered RL -> incl RL R -> 0 <= n ->
+    incl (firstn (Z.to_nat (n + 1)) R) RL ->
+    cut_first E RL (Some n) h1 = cut_first E R (Some n) h2.
+  Proof.
+    intros HoR HoL Hsub Hn Hneed.
+    pose proof (SSorted_prefix_shared E lt_e lt_e_asym _ _ _ HoR HoL Hsub Hneed) as Heq.
+    assert (Hlen : length (firstn (Z.to_nat (n + 1)) RL) = length (firstn (Z.to_nat (n + 1)) R)) by (rewrite Heq; reflexivity).
+    rewrite !firstn_length in Hlen.
+    unfold cut_first, len. replace (n <? 0) with false by lia.
+    destruct (Z.of_nat (length R) >? n) eqn:HgR.
+    - replace (Z.of_nat (length RL) >? n) with true by lia.
+      f_equal. f_equal.
+      replace (Z.to_nat n) with (Nat.min (Z.to_nat n) (Z.to_nat (n + 1))) by lia.
+      rewrite <- !firstn_firstn. rewrite Heq. reflexivity.
+    - replace (Z.of_nat (length RL) >? n) with false by lia.
+      f_equal. f_equal.
+      rewrite <- (firstn_all2 (n:=Z.to_nat (n + 1)) RL) by lia.
+      rewrite <- (firstn_all2 (n:=Z.to_nat (n + 1)) R) by lia. exact Heq.
+  Qed.
+
+  Lemma cut_last_shared (R RL : list E) m h1 h2 :
+    ordered R -> ordered RL -> incl RL R -> 0 <= m ->
+    incl (rev (firstn (Z.to_nat (m + 1)) (rev R))) RL ->
+    cut_last E RL (Some m) h1 = cut_last E R (Some m) h2.
+  Proof.
+    intros HoR HoL Hsub Hm Hneed.
+    pose proof (SSorted_suffix_shared_rev E lt_e lt_e_asym _ _ _ HoR HoL Hsub Hneed) as Heq.
+    assert (Hlen : length (firstn (Z.to_nat (m + 1)) (rev RL)) = length (firstn (Z.to_nat (m + 1)) (rev R))) by (rewrite Heq; reflexivity).
+    rewrite !firstn_length, !rev_length in Hlen.
+    unfold cut_last, len. replace (m <? 0) with false by lia.
+    destruct (Z.of_nat (length R) >? m) eqn:HgR.
+    - replace (Z.of_nat (length RL) >? m) with true by lia.
+      f_equal. f_equal.
+      rewrite <- !lastn_skipn. f_equal.
+      replace (Z.to_nat m) with (Nat.min (Z.to_nat m) (Z.to_nat (m + 1))) by lia.
+      rewrite <- !firstn_firstn. rewrite Heq. reflexivity.
+    - replace (Z.of_nat (length RL) >? m) with false by lia.
+      f_equal. f_equal.
+      rewrite <- (rev_involutive RL), <- (rev_involutive R). f_equal.
+      rewrite <- (firstn_all2 (n:=Z.to_nat (m + 1)) (rev RL)) by (rewrite rev_length; lia).
+      rewrite <- (firstn_all2 (n:=Z.to_nat (m + 1)) (rev R)) by (rewrite rev_length; lia). exact Heq.
+  Qed.
+
+  Lemma window_connection S L : ordered S -> NoDup (map cur L) -> connection_of L (isort L).
+  Proof. intros _ Hnd. split; [apply isort_perm | apply isort_ordered; exact Hnd]. Qed.
+
+  Lemma window_range_incl S L after before :
+    incl L S -> incl (range (isort L) before after) (range S before after).
+  Proof.
+    intros Hsub e He. apply range_In in He as [He Hr]. apply range_In. split; [|exact Hr].
+    apply Hsub. eapply Permutation_in; [apply isort_perm | exact He].
+  Qed.
+
+  Lemma needed_in_window_range S L after before limit :
+    incl (needed S after before limit) L ->
+    incl (needed S after before limit) (range (isort L) before after).
+  Proof.
+    intros Hneed e He. apply range_In. split.
+    - eapply Permutation_in; [apply Permutation_sym, isort_perm | apply Hneed, He].
+    - unfold needed in He. assert (HeR : In e (range S before after)).
+      { destruct (limit >? 0); [eapply firstn_incl; exact He|].
+        rewrite lastn_skipn in He. eapply skipn_incl; exact He. }
+      apply range_In in HeR. tauto.
+  Qed.
+
+  (** EdgesToReturn on a window = EdgesToReturn on all edges, except that the flag opposite to the
+      direction of travel is computed from the edges the window happens to contain *)
+  Lemma edges_to_return_window_first edges S L after before n :
+    connection_of edges S -> 0 <= n -> window_ok S after before (n + 1) L ->
+    exists page pi pi',
+      edges_to_return edges after before (Some n) None = Ret (page, pi) /\
+      edges_to_return L after before (Some n) None = Ret (page, pi') /\
+      pi_next pi' = pi_next pi /\ (pi_prev pi' = true -> pi_prev pi = true).
+  Proof.
+    intros HC Hn [Hnd [Hsub Hneed]]. pose proof (proj2 HC) as Ho.
+    pose proof (window_connection S L Ho Hnd) as HCL.
+    rewrite (edges_to_return_closed _ _ _ _ _ _ HC), (edges_to_return_closed _ _ _ _ _ _ HCL). cbv zeta.
+    assert (Hneed' : incl (firstn (Z.to_nat (n + 1)) (range S before after)) (range (isort L) before after)).
+    { pose proof (needed_in_window_range S L after before (n + 1) Hneed) as H.
+      unfold needed in H. replace (n + 1 >? 0) with true in H by lia. exact H. }
+    rewrite (cut_first_shared (range S before after) (range (isort L) before after) n
+               (had_next (isort L) before) (had_next S before)
+               (range_ordered S after before Ho) (range_ordered _ after before (proj2 HCL))
+               (window_range_incl S L after before Hsub) Hn Hneed').
+    destruct (cut_first E (range S before after) (Some n) (had_next S before)) as [[e1 next]|] eqn:Hc.
+    2:{ exfalso. unfold cut_first in Hc. destruct (_ >? n); [|discriminate]. replace (n <? 0) with false in Hc by lia. discriminate. }
+    simpl. do 3 eexists. split; [reflexivity|]. split; [reflexivity|]. simpl. split; [reflexivity|].
+    unfold had_prev. apply existsb_incl. intros e He. apply Hsub.
+    eapply Permutation_in; [apply isort_perm | exact He].
+  Qed.
+
+  Lemma edges_to_return_window_last edges S L after before m :
+    connection_of edges S -> 0 <= m -> window_ok S after before (- (m + 1)) L ->
+    exists page pi pi',
+      edges_to_return edges after before None (Some m) = Ret (page, pi) /\
+      edges_to_return L after before None (Some m) = Ret (page, pi') /\
+      pi_prev pi' = pi_prev pi /\ (pi_next pi' = true -> pi_next pi = true).
+  Proof.
+    intros HC Hm [Hnd [Hsub Hneed]]. pose proof (proj2 HC) as Ho.
+    pose proof (window_connection S L Ho Hnd) as HCL.
+    rewrite (edges_to_return_closed _ _ _ _ _ _ HC), (edges_to_return_closed _ _ _ _ _ _ HCL). cbv zeta.
+    assert (Hneed' : incl (rev (firstn (Z.to_nat (m + 1)) (rev (range S before after)))) (range (isort L) before after)).
+    { pose proof (needed_in_window_range S L after before (- (m + 1)) Hneed) as H.
+      unfold needed in H. replace (- (m + 1) >? 0) with false in H by lia.
+      replace (- - (m + 1)) with (m + 1) in H by lia. exact H. }
+    unfold cut_first at 1 2.
+    rewrite (cut_last_shared (range S before after) (range (isort L) before after) m
+               (had_prev (isort L) after before) (had_prev S after before)
+               (range_ordered S after before Ho) (range_ordered _ after before (proj2 HCL))
+               (window_range_incl S L after before Hsub) Hm Hneed').
+    destruct (cut_last E (range S before after) (Some m) (had_prev S after before)) as [[e2 prev]|] eqn:Hc.
+    2:{ exfalso. unfold cut_last in Hc. destruct (_ >? m); [|discriminate]. replace (m <? 0) with false in Hc by lia. discriminate. }
+    simpl. do 3 eexists. split; [reflexivity|]. split; [reflexivity|]. simpl. split; [reflexivity|].
+    unfold had_next. apply existsb_incl. intros e He. apply Hsub.
+    eapply Permutation_in; [apply isort_perm | exact He].
+  Qed.
+
+  (** ** the connection field *)
+  Variable encode : C -> bytes.
+  Variable decode : bytes -> option C.
+  Notation resolve := (resolve C E ltb cur encode decode).
+  Notation serve := (serve C E ltb cur encode decode).
+  Notation complete_now := (complete_now C E ltb cur encode).
+  Notation complete_connection := (complete_connection C E ltb cur encode).
+  Notation decode_arg := (decode_arg C decode).
+
+  (** the application hands over the list [l], directly or through a promise *)
+  Definition delivers (r : result (later (list E))) (l : list E) : Prop :=
+    r = Ok (Sync l) \/ r = Ok (Promise (Ok l)).
+
+  (** mode "all edges": ResolveAllEdges returns every edge (any order); totalCount is then the
+      slice length unless ResolveTotalCount is configured too *)
+  Definition app_all_ok (a : app C E) (edges S : list E) : Prop :=
+    app_has_all a = true /\ delivers (app_all a) edges /\
+    (app_total a = None \/ app_total a = Some (Ok (len S))).
+  (** mode "limited window": ResolveEdges returns some acceptable window for whatever it is
+      asked, ResolveTotalCount the size of the connection *)
+  Definition app_window_ok (a : app C E) (S : list E) : Prop :=
+    app_has_all a = false /\ app_total a = Some (Ok (len S)) /\
+    forall after before limit,
+      exists L, delivers (app_edges a after before limit) L /\ window_ok S after before limit L.
+
+  Definition limit_of (ar : args) : Z :=
+    match a_first ar with
+    | Some f => f + 1
+    | None => match a_last ar with Some l => - (l + 1) | None => 0 end
+    end.
+
+  Definition ser_page_info (pi : page_info C) : spage :=
+    {| sp_prev := pi_prev pi; sp_next := pi_next pi;
+       sp_start := match pi_start pi with Some c => encode c | None => [] end;
+       sp_end := match pi_end pi with Some c => encode c | None => [] end |}.
+
+  Lemma check_counts_none ar : check_counts ar = None ->
+    (exists n, a_first ar = Some n /\ a_last ar = None /\ 0 <= n) \/
+    (exists m, a_first ar = None /\ a_last ar = Some m /\ 0 <= m).
+  Proof.
+    unfold check_counts. destruct (a_first ar) as [n|], (a_last ar) as [m|]; intro H.
+    - destruct (n <? 0); discriminate.
+    - destruct (n <? 0) eqn:Hn; [discriminate|]. left. exists n. repeat split. lia.
+    - destruct (m <? 0) eqn:Hm; [discriminate|]. right. exists m. repeat split. lia.
+    - discriminate.
+  Qed.
+
+  Lemma check_counts_rejected ar :
+    args_rejected (a_first ar) (a_last ar) = match check_counts ar with Some _ => true | None => false end.
+  Proof.
+    unfold args_rejected, check_counts. destruct (a_first ar) as [n|], (a_last ar) as [m|]; try reflexivity.
+    - destruct (n <? 0); reflexivity.
+    - destruct (n <? 0); reflexivity.
+    - destruct (m <? 0); reflexivity.
+  Qed.
+
+  (** a negative count, a missing count, first and last together: an error (for every
+      application), and not a crash *)
+  Theorem arg_errors (a : app C E) ar :
+    args_rejected (a_first ar) (a_last ar) = true ->
+    exists e, serve a ar = RError e /\
+              (e = EFirstNegative \/ e = EBothFirstLast \/ e = ELastNegative \/ e = ENoCount).
+  Proof.
+    rewrite check_counts_rejected. unfold RelayModel.serve, RelayModel.resolve.
+    destruct (check_counts ar) as [e|] eqn:Hc; [|discriminate]. intros _. exists e. split; [reflexivity|].
+    unfold check_counts in Hc. destruct (a_first ar) as [n|], (a_last ar) as [m|];
+      repeat match type of Hc with context [?x <? 0] => destruct (x <? 0) end; inversion Hc; auto.
+  Qed.
+
+  (** a non-empty cursor string that DeserializeCursor rejects: an error *)
+  Theorem invalid_cursor_errors (a : app C E) ar :
+    args_rejected (a_first ar) (a_last ar) = false ->
+    (exists e, decode_arg (a_after ar) EInvalidAfter = Err e) \/
+    (exists e, decode_arg (a_before ar) EInvalidBefore = Err e) ->
+    serve a ar = RError EInvalidAfter \/ serve a ar = RError EInvalidBefore.
+  Proof.
+    rewrite check_counts_rejected. unfold RelayModel.serve, RelayModel.resolve.
+    destruct (check_counts ar) as [e|] eqn:Hc; [discriminate|]. intros _ H.
+    assert (Hd : forall s e e', decode_arg s e = Err e' -> e' = e).
+    { intros s e e'. unfold RelayModel.decode_arg. destruct s as [[|x s]|]; try discriminate.
+      destruct (decode (x :: s)); [discriminate|]. intro Heq. inversion Heq. reflexivity. }
+    destruct (decode_arg (a_after ar) EInvalidAfter) as [af|e1] eqn:Ha.
+    - destruct H as [[e H]|[e H]]; [discriminate|]. rewrite H. right. rewrite (Hd _ _ _ H). reflexivity.
+    - left. rewrite (Hd _ _ _ Ha). reflexivity.
+  Qed.
+
+  (** the resolver, once the arguments are accepted *)
+  Definition lazy_total (a : app C E) : result (later Z) :=
+    match app_total a with
+    | Some t => result_map Sync t
+    | None =>
+        if app_has_all a then
+          match app_all a with
+          | Err e => Err e
+          | Ok (Promise p) => Ok (Promise (chain p (fun l => Ok (len l))))
+          | Ok (Sync l) => Ok (Sync (len l))
+          end
+        else Err ETotalUnsupported
+    end.
+
+  Definition lazy_page_info (a : app C E) ar before after (src : result (later (list E))) : result (later spage) :=
+    match src with
+    | Err e => Err e
+    | Ok es =>
+        match complete_connection a ar before after es with
+        | Err e => Err e
+        | Ok (Promise p) => Ok (Promise (chain p (fun c => await (cn_page_info c))))
+        | Ok (Sync c) => cn_page_info c
+        end
+    end.
+
+  Lemma resolve_unfold (a : app C E) ar af bf :
+    check_counts ar = None ->
+    decode_arg (a_after ar) EInvalidAfter = Ok af -> decode_arg (a_before ar) EInvalidBefore = Ok bf ->
+    resolve a ar =
+    let limit := limit_of ar in
+    let src := if app_has_all a then app_all a else app_edges a af bf limit in
+    let calls := if app_has_all a then [] else [{| k_after := af; k_before := bf; k_limit := limit |}] in
+    if (limit =? 1) || (limit =? -1) then
+      (Ok (Sync {| cn_edges := []; cn_page_info := lazy_page_info a ar bf af src;
+                   cn_total := lazy_total a; cn_page_info_calls := calls |}), [])
+    else (match src with Err e => Err e | Ok es => complete_connection a ar bf af es end, calls).
+  Proof.
+    intros Hc Ha Hb. unfold RelayModel.resolve. rewrite Hc, Ha, Hb. unfold limit_of, lazy_page_info, lazy_total.
+    destruct (check_counts_none ar Hc) as [[n [Hf [Hl Hn]]]|[m [Hf [Hl Hm]]]]; rewrite Hf, ?Hl; cbv zeta;
+      destruct (app_has_all a); simpl fst; simpl snd;
+      match goal with |- context [(?x =? 1) || (?y =? -1)] => destruct ((x =? 1) || (y =? -1)) end;
+      try reflexivity;
+      match goal with |- context [match ?r with Ok _ => _ | Err _ => _ end] => destruct r; reflexivity end.
+  Qed.
+
+  Lemma await_complete_connection (a : app C E) ar bf af src l :
+    delivers src l ->
+    await (match src with Err e => Err e | Ok es => complete_connection a ar bf af es end) = complete_now a ar bf af l.
+  Proof.
+    intros [->| ->]; unfold RelayModel.complete_connection; simpl.
+    - destruct (complete_now a ar bf af l); reflexivity.
+    - reflexivity.
+  Qed.
+
+  Lemma await_lazy_page_info (a : app C E) ar bf af src l :
+    delivers src l ->
+    await (lazy_page_info a ar bf af src) =
+    match complete_now a ar bf af l with Ok c => await (cn_page_info c) | Err e => Err e end.
+  Proof.
+    intros [->| ->]; unfold lazy_page_info, RelayModel.complete_connection; simpl.
+    - destruct (complete_now a ar bf af l); reflexivity.
+    - destruct (complete_now a ar bf af l); reflexivity.
+  Qed.
+
+  Lemma complete_now_ret (a : app C E) ar bf af l page pi :
+    edges_to_return l af bf (a_first ar) (a_last ar) = Ret (page, pi) ->
+    complete_now a ar bf af l =
+    Ok {| cn_edges := page; cn_page_info := Ok (Sync (ser_page_info pi));
+          cn_total := match app_total a with Some t => result_map Sync t | None => Ok (Sync (len l)) end;
+          cn_page_info_calls := [] |}.
+  Proof. intro H. unfold RelayModel.complete_now. rewrite H. reflexivity. Qed.
+
+  (** zero edges requested: the page is empty *)
+  Lemma zero_page edges S af bf first last page pi :
+    connection_of edges S ->
+    edges_to_return edges af bf first last = Ret (page, pi) ->
+    (first = Some 0 /\ last = None) \/ (first = None /\ last = Some 0) -> page = [].
+  Proof.
+    intros HC HR H. destruct (ret_inv _ _ _ _ _ _ _ _ HC HR) as [_ [_ ->]]. unfold sliced.
+    destruct H as [[-> ->]|[-> ->]].
+    - unfold RelaySpec.keep_first. destruct (_ >? 0) eqn:Hg; [reflexivity|].
+      destruct (range S bf af); [reflexivity | simpl length in Hg; lia].
+    - unfold RelaySpec.keep_last. destruct (_ >? 0) eqn:Hg; [reflexivity|].
+      destruct (range S bf af); [reflexivity | simpl length in Hg; lia].
+  Qed.
+
+  (** what the client sees when the application hands over [l] (all edges, or a window) *)
+  Lemma serve_delivered (a : app C E) ar af bf l lS page pi t :
+    check_counts ar = None ->
+    decode_arg (a_after ar) EInvalidAfter = Ok af -> decode_arg (a_before ar) EInvalidBefore = Ok bf ->
+    delivers (if app_has_all a then app_all a else app_edges a af bf (limit_of ar)) l ->
+    connection_of l lS ->
+    edges_to_return l af bf (a_first ar) (a_last ar) = Ret (page, pi) ->
+    (app_total a = Some (Ok t) \/ (app_total a = None /\ app_has_all a = true /\ t = len l)) ->
+    serve a ar = RData page (Ok (ser_page_info pi)) (Ok t).
+  Proof.
+    intros Hc Ha Hb Hd HCl HR Ht. unfold RelayModel.serve. rewrite (resolve_unfold a ar af bf Hc Ha Hb). cbv zeta.
+    set (src := if app_has_all a then app_all a else app_edges a af bf (limit_of ar)) in *.
+    destruct ((limit_of ar =? 1) || (limit_of ar =? -1)) eqn:Hlazy; simpl fst; unfold observe.
+    - (* no edges requested: everything is delayed until a field is asked for *)
+      simpl await at 1. cbv beta iota. cbn [cn_edges cn_page_info cn_total].
+      rewrite (await_lazy_page_info a ar bf af src l Hd), (complete_now_ret a ar bf af l page pi HR). simpl.
+      assert (Hp : page = []).
+      { apply (zero_page l lS af bf (a_first ar) (a_last ar) page pi HCl HR).
+        unfold limit_of in Hlazy. destruct (check_counts_none ar Hc) as [[n [Hf [Hl Hn]]]|[m [Hf [Hl Hm]]]];
+          rewrite Hf, ?Hl in *; [left|right]; split; try reflexivity; f_equal; lia. }
+      subst page. f_equal. unfold lazy_total.
+      destruct Ht as [Ht|[Ht [Hall Htl]]]; rewrite Ht; [reflexivity|].
+      rewrite Hall. unfold src in Hd. rewrite Hall in Hd. destruct Hd as [-> | ->]; simpl; subst t; reflexivity.
+    - rewrite (await_complete_connection a ar bf af src l Hd), (complete_now_ret a ar bf af l page pi HR). simpl.
+      f_equal. destruct Ht as [Ht|[Ht [Hall Htl]]]; rewrite Ht; [reflexivity|]. subst t. reflexivity.
+  Qed.
+
+  (** ** one request, at full strength *)
+  Definition enc_opt (o : option E) : bytes := match o with Some e => encode (cur e) | None => [] end.
+
+  (** what C09 says about the answer to one accepted request (cursors [after], [before] are the
+      decoded positions): *)
+  Definition response_ok (S : list E) (after before : option C) (first last : option Z) (r : response E) : Prop :=
+    exists page sp,
+      r = RData page (Ok sp) (Ok (len S)) /\                                   (* totalCount = size of the connection *)
+      spec_edges S before after first last = Some page /\                      (* exactly the Relay edges *)
+      ordered page /\                                                          (* in cursor order *)
+      sp_start sp = enc_opt (hd_error page) /\ sp_end sp = enc_opt (last_error page) /\
+      (has_next_required S before after first = true -> sp_next sp = true) /\
+      (sp_next sp = true -> has_next_allowed S before after first = true) /\
+      (has_prev_required S before after last = true -> sp_prev sp = true) /\
+      (sp_prev sp = true -> has_prev_allowed S before after last = true) /\
+      (sp_next sp = true -> edge_beyond_end C E ltb cur S page) /\
+      (sp_prev sp = true -> edge_before_start C E ltb cur S page).
+
+  Lemma valid_counts_ret edges S af bf first last :
+    connection_of edges S -> args_rejected first last = false ->
+    exists page pi, edges_to_return edges af bf first last = Ret (page, pi).
+  Proof.
+    intros HC Hr. pose proof (edges_eq edges S af bf first last HC) as H.
+    destruct (edges_to_return edges af bf first last) as [[page pi]|]; [eauto|].
+    exfalso. unfold RelaySpec.spec_edges, slice_edges, args_rejected in *.
+    destruct first as [n|], last as [m|]; try discriminate;
+      repeat match type of H with context [?x <? 0] => destruct (x <? 0) end; discriminate.
+  Qed.
+
+  Lemma ser_cursors l af bf first last page pi :
+    edges_to_return l af bf first last = Ret (page, pi) ->
+    sp_start (ser_page_info pi) = enc_opt (hd_error page) /\ sp_end (ser_page_info pi) = enc_opt (last_error page).
+  Proof.
+    intro HR. destruct (page_cursors _ _ _ _ _ _ _ HR) as [Hs He]. unfold ser_page_info, enc_opt. simpl.
+    rewrite Hs, He. destruct (hd_error page), (last_error page); simpl; split; reflexivity.
+  Qed.
+
+  Lemma beyond_end_perm edges S page : connection_of edges S ->
+    edge_beyond_end C E ltb cur edges page -> edge_beyond_end C E ltb cur S page.
+  Proof. intros HC [e [H1 H2]]. exists e. split; [apply (connection_In _ _ HC); exact H1 | exact H2]. Qed.
+  Lemma before_start_perm edges S page : connection_of edges S ->
+    edge_before_start C E ltb cur edges page -> edge_before_start C E ltb cur S page.
+  Proof. intros HC [e [H1 H2]]. exists e. split; [apply (connection_In _ _ HC); exact H1 | exact H2]. Qed.
+
+  Lemma not_both ar : check_counts ar = None -> both_given (a_first ar) (a_last ar) = false.
+  Proof. intro Hc. destruct (check_counts_none ar Hc) as [[n [-> [-> _]]]|[m [-> [-> _]]]]; reflexivity. Qed.
+
+  Lemma rejected_check ar : args_rejected (a_first ar) (a_last ar) = false -> check_counts ar = None.
+  Proof. rewrite check_counts_rejected. destruct (check_counts ar); [discriminate | reflexivity]. Qed.
+
+  (** mode "all edges" *)
+  Theorem serve_all_ok (a : app C E) edges S ar af bf :
+    connection_of edges S -> app_all_ok a edges S ->
+    args_rejected (a_first ar) (a_last ar) = false ->
+    decode_arg (a_after ar) EInvalidAfter = Ok af -> decode_arg (a_before ar) EInvalidBefore = Ok bf ->
+    response_ok S af bf (a_first ar) (a_last ar) (serve a ar).
+  Proof.
+    intros HC [Hall [Hd Ht]] Hr Ha Hb. pose proof (rejected_check ar Hr) as Hc.
+    destruct (valid_counts_ret edges S af bf _ _ HC Hr) as [page [pi HR]].
+    assert (Hserve : serve a ar = RData page (Ok (ser_page_info pi)) (Ok (len S))).
+    { apply (serve_delivered a ar af bf edges S page pi (len S) Hc Ha Hb); try assumption.
+      - rewrite Hall. exact Hd.
+      - assert (Hl : len S = len edges) by (unfold len; rewrite (connection_length _ _ HC); reflexivity).
+        destruct Ht as [Ht|Ht]; [right | left]; auto. }
+    exists page, (ser_page_info pi). rewrite Hserve.
+    pose proof (edges_eq edges S af bf (a_first ar) (a_last ar) HC) as Heq. rewrite HR in Heq.
+    destruct (ser_cursors _ _ _ _ _ _ _ HR) as [Hs He].
+    repeat split; try assumption.
+    - eapply page_sorted; eassumption.
+    - eapply has_next_required_holds; eassumption.
+    - eapply has_next_allowed_holds; eassumption.
+    - intro H. eapply has_prev_required_holds; try eassumption. apply not_both. exact Hc.
+    - eapply has_prev_allowed_holds; eassumption.
+    - intro H. eapply beyond_end_perm; [exact HC|]. eapply has_next_sound; eassumption.
+    - intro H. eapply before_start_perm; [exact HC|]. eapply has_prev_sound; eassumption.
+  Qed.
+
+  (** the limited-window mode gives the same data and the same cursors as the all-edges mode, the
+      same flag in the direction of travel, and in the other direction a flag that can only be
+      weaker (it stays within [required, allowed], see [serve_window_ok]) *)
+  Theorem window_equiv (a1 a2 : app C E) edges S ar af bf :
+    connection_of edges S -> app_all_ok a1 edges S -> app_window_ok a2 S ->
+    args_rejected (a_first ar) (a_last ar) = false ->
+    decode_arg (a_after ar) EInvalidAfter = Ok af -> decode_arg (a_before ar) EInvalidBefore = Ok bf ->
+    exists page sp1 sp2,
+      serve a1 ar = RData page (Ok sp1) (Ok (len S)) /\
+      serve a2 ar = RData page (Ok sp2) (Ok (len S)) /\
+      sp_start sp2 = sp_start sp1 /\ sp_end sp2 = sp_end sp1 /\
+      (a_first ar <> None -> sp_next sp2 = sp_next sp1 /\ (sp_prev sp2 = true -> sp_prev sp1 = true)) /\
+      (a_last ar <> None -> sp_prev sp2 = sp_prev sp1 /\ (sp_next sp2 = true -> sp_next sp1 = true)).
+  Proof.
+    intros HC [Hall1 [Hd1 Ht1]] [Hall2 [Ht2 Hw]] Hr Ha Hb. pose proof (rejected_check ar Hr) as Hc.
+    destruct (Hw af bf (limit_of ar)) as [L [HdL HwL]].
+    assert (Hl : len S = len edges) by (unfold len; rewrite (connection_length _ _ HC); reflexivity).
+    assert (HCL : connection_of L (isort L)) by (apply (window_connection S L (proj2 HC)); apply HwL).
+    assert (Hrel : exists page pi pi',
+               edges_to_return edges af bf (a_first ar) (a_last ar) = Ret (page, pi) /\
+               edges_to_return L af bf (a_first ar) (a_last ar) = Ret (page, pi') /\
+               (a_first ar <> None -> pi_next pi' = pi_next pi /\ (pi_prev pi' = true -> pi_prev pi = true)) /\
+               (a_last ar <> None -> pi_prev pi' = pi_prev pi /\ (pi_next pi' = true -> pi_next pi = true))).
+    { unfold limit_of in HwL.
+      destruct (check_counts_none ar Hc) as [[n [Hf [Hla Hn]]]|[m [Hf [Hla Hm]]]]; rewrite Hf, Hla in *.
+      - destruct (edges_to_return_window_first edges S L af bf n HC Hn HwL) as [page [pi [pi' [H1 [H2 [H3 H4]]]]]].
+        exists page, pi, pi'. split; [exact H1|]. split; [exact H2|]. split.
+        + intros _. split; assumption.
+        + intro Hx. congruence.
+      - destruct (edges_to_return_window_last edges S L af bf m HC Hm HwL) as [page [pi [pi' [H1 [H2 [H3 H4]]]]]].
+        exists page, pi, pi'. split; [exact H1|]. split; [exact H2|]. split.
+        + intro Hx. congruence.
+        + intros _. split; assumption. }
+    destruct Hrel as [page [pi [pi' [HR1 [HR2 [Hfirst Hlast]]]]]].
+    exists page, (ser_page_info pi), (ser_page_info pi').
+    split; [|split].
+    - apply (serve_delivered a1 ar af bf edges S page pi (len S) Hc Ha Hb); try assumption.
+      + rewrite Hall1. exact Hd1.
+      + destruct Ht1 as [Ht1|Ht1]; [right | left]; auto.
+    - apply (serve_delivered a2 ar af bf L (isort L) page pi' (len S) Hc Ha Hb); try assumption.
+      + rewrite Hall2. exact HdL.
+      + left. exact Ht2.
+    - destruct (ser_cursors _ _ _ _ _ _ _ HR1) as [Hs1 He1]. destruct (ser_cursors _ _ _ _ _ _ _ HR2) as [Hs2 He2].
+      rewrite Hs1, Hs2, He1, He2. repeat split; try reflexivity; simpl; try apply Hfirst; try apply Hlast; assumption.
+  Qed.
+
+  (** mode "limited window" *)
+  Theorem serve_window_ok (a : app C E) S ar af bf :
+    ordered S -> app_window_ok a S ->
+    args_rejected (a_first ar) (a_last ar) = false ->
+    decode_arg (a_after ar) EInvalidAfter = Ok af -> decode_arg (a_before ar) EInvalidBefore = Ok bf ->
+    response_ok S af bf (a_first ar) (a_last ar) (serve a ar).
+  Proof.
+    intros Ho Hw Hr Ha Hb. pose proof (rejected_check ar Hr) as Hc.
+    set (a1 := {| app_has_all := true; app_all := Ok (Sync S); app_edges := app_edges a; app_total := None |}).
+    assert (HC : connection_of S S) by (split; [apply Permutation_refl | exact Ho]).
+    assert (H1 : app_all_ok a1 S S) by (split; [reflexivity | split; [left; reflexivity | left; reflexivity]]).
+    destruct (window_equiv a1 a S S ar af bf HC H1 Hw Hr Ha Hb) as [page [sp1 [sp2 [Hs1 [Hs2 [Hst [Hen [Hf Hl]]]]]]]].
+    destruct (serve_all_ok a1 S S ar af bf HC H1 Hr Ha Hb)
+      as [page' [sp' [Hs' [Hedges [Hord [Hst' [Hen' [Hnr [Hna [Hpr [Hpa [Hns Hps]]]]]]]]]]]].
+    rewrite Hs1 in Hs'. inversion Hs'; subst page' sp'. clear Hs'.
+    exists page, sp2. rewrite Hs2.
+    assert (Hnext : sp_next sp2 = true -> sp_next sp1 = true).
+    { destruct (check_counts_none ar Hc) as [[n [Hfi _]]|[m [_ [Hla _]]]].
+      - destruct Hf as [Hf _]; [congruence|]. rewrite Hf. auto.
+      - destruct Hl as [_ Hl]; [congruence|]. exact Hl. }
+    assert (Hprev : sp_prev sp2 = true -> sp_prev sp1 = true).
+    { destruct (check_counts_none ar Hc) as [[n [Hfi _]]|[m [_ [Hla _]]]].
+      - destruct Hf as [_ Hf]; [congruence|]. exact Hf.
+      - destruct Hl as [Hl _]; [congruence|]. rewrite Hl. auto. }
+    repeat split; auto; try congruence.
+    - (* hasNextPage required: only when [first] is given, where the flags coincide *)
+      intro H. destruct (a_first ar) as [n|] eqn:Hfi; [|discriminate H].
+      destruct Hf as [Hf _]; [discriminate|]. rewrite Hf. apply Hnr. exact H.
+    - intro H. destruct (a_last ar) as [m|] eqn:Hla; [|discriminate H].
+      destruct Hl as [Hl _]; [discriminate|]. rewrite Hl. apply Hpr. exact H.
+  Qed.
 End Proofs.
